@@ -318,16 +318,23 @@ def execute(case):
         if names1 != names0:
             added = [x for x in names1 if x not in names0]
             removed = [x for x in names0 if x not in names1]
-            res.notes['names_added_kinds'] = [kinds0.get(x, '?') for x in added]
-            res.notes['names_removed'] = removed
-            res.notes['order_kept'] = [x for x in names1 if x in names0] == [x for x in names0 if x in names1]
             n_io0 = len(c.io_nodes)
-            res.notes['step_kind'] = kind
-            res.notes['ports_same'] = names0[:n_io0] == names1[:n_io0]
             rest1 = [x for x in names1 if x not in added]      # the list without the added names
-            res.notes['state_elements_permuted'] = names0[:n_io0] == rest1[:n_io0] and sorted(names0[n_io0:]) == sorted(rest1[n_io0:]) and names0[n_io0:] != rest1[n_io0:]
-            res.violate('s-nodes-changed', f'step {k} ({did}): ports/state elements before {names0[:10]} after {names1[:10]} (added {added[:4]}, removed {removed[:4]})')
-            return res
+            info = {'names_added_kinds': [kinds0.get(x, '?') for x in added], 'names_removed': removed,
+                    'order_kept': [x for x in names1 if x in names0] == [x for x in names0 if x in names1],
+                    'step_kind': kind, 'ports_same': names0[:n_io0] == names1[:n_io0],
+                    'state_elements_permuted': names0[:n_io0] == rest1[:n_io0] and sorted(names0[n_io0:]) == sorted(rest1[n_io0:]) and names0[n_io0:] != rest1[n_io0:]}
+            key = classify_names_change(info)
+            vkind = 's-nodes-changed' if key is None else 's-nodes-changed:' + key
+            res.notes.setdefault('snc', {})[vkind] = info
+            if not any(v['kind'] == vkind for v in res.violations):
+                res.violate(vkind, f'step {k} ({did}): ports/state elements before {names0[:10]} after {names1[:10]} (added {added[:4]}, removed {removed[:4]})')
+            if key is None: return res
+            # the change matches a recorded known finding: the history goes on (so that it cannot mask what later steps do),
+            # judged against the list as it is now
+            if removed: return res
+            tab0 = None
+            continue
         if not graphsim.check_invariants(c, res, k, did): return res     # a structurally corrupt graph has no function
         if kind == 'resolve':
             left = [f'{n.name}:{n.kind}' for n in c.nodes if n.kind in tlib.cells]
@@ -348,15 +355,21 @@ def execute(case):
     return res
 
 
+def classify_names_change(info):
+    """Key of the known finding a change of the port/state-element list matches, else None."""
+    added = info['names_added_kinds']
+    hidden = bool(added) and not info['names_removed'] and all(any(k.startswith(h) for h in HIDDEN_LATCH) for k in added)
+    permuted = bool(info['state_elements_permuted']) and info['step_kind'] in ('elim', 'resolve', 'subst')
+    if hidden and (info['order_kept'] or permuted):
+        return 'F9i-latch-cell-without-latch-in-its-name'       # (possibly together with F14 in the same step)
+    if not added and not info['names_removed'] and info['ports_same'] and permuted:
+        return 'F14-node-removal-permutes-state-element-order'
+    return None
+
+
 def finding_key(case, res, kind):
-    if kind == 's-nodes-changed':
-        added = res.notes.get('names_added_kinds') or []
-        hidden = bool(added) and not res.notes.get('names_removed') and all(any(k.startswith(h) for h in HIDDEN_LATCH) for k in added)
-        permuted = bool(res.notes.get('state_elements_permuted')) and res.notes.get('step_kind') in ('elim', 'resolve', 'subst')
-        if hidden and (res.notes.get('order_kept') or permuted):
-            return 'F9i-latch-cell-without-latch-in-its-name'       # (possibly together with F14 in the same step)
-        if not added and not res.notes.get('names_removed') and res.notes.get('ports_same') and permuted:
-            return 'F14-node-removal-permutes-state-element-order'
+    if kind.startswith('s-nodes-changed:'):
+        return kind.split(':', 1)[1]
     return None
 
 
